@@ -1,6 +1,6 @@
 """Per-property workload generators (plans), variant generators and clause selection."""
 import random, copy
-from .history import H, BASE_WALL_MS
+from .history import H, BASE_WALL_MS, schema_text
 from . import engine
 
 
@@ -140,6 +140,13 @@ class C01:
                 if rng.random() < 0.5:
                     h.read_all(tag="pre-end")
             last_work = len(h.plan["lifetimes"]) - 1
+            if i % 2 == 0:
+                # second crash before anything is flushed: whatever the first crash left at the end of the newest WAL log
+                # (torn line, line without newline) is now followed by new appends, and those must survive as well
+                h.life(end="kill")
+                h.read_all(tag="verify0")
+                gen_ops(h, rng, rng.randrange(1, 3), types, ctxs, p_flush=0.0, p_compact=0.0, p_read=0.0)
+                h.read_all(tag="verify0b")
             # verification lifetime: reads, a little more work, reads again
             h.life(end="shutdown")
             h.read_all(tag="verify")
@@ -1673,6 +1680,49 @@ class C06(Base):
                 h.step({"op": "barrier", "meta": {"kind": "checkpoint", "tag": tag}})
                 h.select("e", tag=tag)
             layout_script(h, rng, st, rng.randrange(6, 20), cp)
+            if i % 4 == 2:
+                # a DEFINE of a NEW type whose persistence fails (EIO / ENOSPC on the n-th write to the schema store): it is
+                # answered with an error, so the type must stay undefined - STOREs rejected, nothing readable, also after a
+                # restart - and a later, fault-free DEFINE of the same type must work
+                h.end("shutdown")
+                h.life(end="shutdown")
+                h.cur["io_faults"] = [{"id": "define-io", "op": "write", "path": "schema/*", "nth": rng.choice([1, 1, 2, 3]),
+                                       "errno": rng.choice(["EIO", "ENOSPC"])}]
+                fs = {"k": "int", "s": "string"}
+                h.cmd(f"DEFINE f FIELDS {schema_text(fs)}", {"kind": "define", "type": "f", "schema": fs})
+                for _ in range(2):
+                    k = h.new_k()
+                    h.store("f", rng.choice(ctxs), {"k": k, "s": "x"}, k=k, vclass="after-failed-define")
+                h.select("e", tag="after-failed-define")
+                h.cmd(f"DEFINE f FIELDS {schema_text(fs)}", {"kind": "define", "type": "f", "schema": fs, "retry": True})
+                k = h.new_k()
+                h.store("f", rng.choice(ctxs), {"k": k, "s": "y"}, k=k, vclass="after-define-retry")
+                h.types["f"] = fs
+                h.select("f", tag="after-define-retry")
+                h.end(rng.choice(["shutdown", "kill"]))
+                h.life(end="shutdown")
+                h.select("f", tag="restart-after-define-retry")
+                h.select("e", tag="restart-after-define-retry")
+            if i % 4 == 0:
+                # a crash tears the record that a DEFINE appends to the schema store (short write, then exit); types
+                # defined after the restart must be durable all the same
+                h.end("shutdown")
+                h.life(end={"crash_before_io": 10 ** 9})
+                h.cur["io_faults"] = [{"id": "define-torn", "op": "write", "path": "schema/*", "nth": 1,
+                                       "short": rng.choice([3, 9, 30]), "then_crash": True}]
+                fs = {"k": "int", "s": "string"}
+                h.cmd(f"DEFINE f FIELDS {schema_text(fs)}", {"kind": "define", "type": "f", "schema": fs})
+                h.life(end=rng.choice(["shutdown", "kill"]))
+                h.select("e", tag="after-torn-define")
+                h.cmd(f"DEFINE g FIELDS {schema_text(fs)}", {"kind": "define", "type": "g", "schema": fs})
+                h.types["g"] = fs
+                for _ in range(2):
+                    k = h.new_k()
+                    h.store("g", rng.choice(ctxs), {"k": k, "s": "x"}, k=k, vclass="after-torn-define")
+                h.select("g", tag="after-torn-define")
+                h.life(end="shutdown")
+                h.select("g", tag="restart-after-torn-define")
+                h.select("e", tag="restart-after-torn-define")
             yield h.done()
 
 
